@@ -197,10 +197,36 @@ VALUES_R1 = {
     "C17": [("MC_Utf8.tla", "MC_Utf8.cfg")],
 }
 
+def float_lits():
+    """R2 for the scanner model: TLC prints one literal per abstract class of a finished scan (VIEW)."""
+    t0 = time.time()
+    out, rc = vlib.tlc("MC_FloatScan.tla", "MC_FloatScan.cfg", workers=min(8, vlib.NCPU), xmx="8g")
+    c = vlib.tlc_counts(out)
+    if rc != 0 or c is None or "No error has been found" not in out:
+        raise Infra("scanner-model cover failed:\n" + out[-4000:])
+    lits = []
+    for line in out.splitlines():
+        if line.startswith('"['):
+            v = vlib.unquote_tla_json(line)
+            if v and v[0] == "FLOATLIT":
+                lits.append(v[1])
+    if len(lits) < 1000:
+        raise Infra("scanner-model cover emitted only %d literals" % len(lits))
+    path = os.path.join(vlib.workdir(), "floatlits.json")
+    json.dump(lits, open(path, "w"))
+    c.update(module="MC_FloatScan.tla", cfg="MC_FloatScan.cfg", wall_s=round(time.time() - t0, 1), class_witnesses=len(lits))
+    log("R1/R2 scanner-model cover: %d generated, %d distinct, %d class witnesses, %.1fs" % (c["generated"], c["distinct"], len(lits), c["wall_s"]))
+    return path, c, len(lits)
+
+
 def run_floats(pid, tier, seed):
     vh = vlib.build_harness()
     r1 = [vlib.model_check("MC_Floats.tla", "MC_Floats.cfg")]
-    g = vlib.run_gen(vh, "floats", tier, seed, shards=nshards(tier))
+    # scanner model (FloatScan): R1 on every literal of the run space, R2 one witness literal per abstract class
+    r1.append(vlib.model_check("MC_FloatScan.tla", "MC_FloatScan_thorough.cfg" if tier == "thorough" else "MC_FloatScan_all.cfg"))
+    lits_path, c, nlits = float_lits()
+    r1.append(c)
+    g = vlib.run_gen(vh, "floats", tier, seed, shards=nshards(tier), states=lits_path)
     res = {"r1": r1, "gens": [g]}
     if "hang" in g:
         res["hang"] = g["hang"]
@@ -685,6 +711,18 @@ SELFTESTS = [
     {"label": "parse_fast_offset", "trace": ("TraceParse.tla", "TraceParse.cfg"), "prop": "C11",
      "case": {"op": "doc", "in": [91, 34, 93, 34, 93, 120]},
      "mutate": lambda ev: _set(ev, "o", 12, ev["o"][12] - 1)},
+    # floats: the last mantissa word of ReadFloat64's result off by one ulp -> C04
+    {"label": "float_one_ulp", "trace": ("TraceFloats.tla", "TraceFloats.cfg"), "prop": "C04",
+     "case": {"op": "float", "in": [48, 46, 49, 101, 45, 53]},
+     "mutate": lambda ev: ev["r"][0].__setitem__(6, ev["r"][0][6] ^ 1)},
+    # hook H4: the recorded decimal exponent of readFloat off by one -> conformance note of the scanner model
+    {"label": "float_scan_exponent", "trace": ("TraceFloats.tla", "TraceFloats.cfg"), "prop": "NOTE",
+     "case": {"op": "float", "in": [49, 50, 51, 52, 53, 54, 55, 56, 57, 48, 49, 50, 51, 52, 53, 54, 55, 56, 57, 48, 49, 46, 53, 101, 45, 51]},
+     "mutate": lambda ev: ev["scan"].__setitem__(len(ev["scan"]) - 5, ev["scan"][len(ev["scan"]) - 5] + 1)},
+    # hook H1: a literal the model sends down the exact path reported as Eisel-Lemire -> conformance note
+    {"label": "float_path", "trace": ("TraceFloats.tla", "TraceFloats.cfg"), "prop": "NOTE",
+     "case": {"op": "float", "in": [49, 46, 53]},
+     "mutate": lambda ev: _set(ev, "tier", None, 2) if False else ev.__setitem__("tier", 2)},
 ]
 
 
